@@ -64,6 +64,48 @@ theorem field_in_place_8 (x k s : Nat) : (x &&& (255 <<< k)) <<< s = ((x >>> k) 
 theorem field_in_place_16 (x k s : Nat) : (x &&& (65535 <<< k)) <<< s = ((x >>> k) &&& 65535) <<< (k + s) :=
   field_in_place x 65535 16 k s (by decide)
 
+/-- two loops over the same list agree when their bodies agree ON THE ELEMENTS OF THE LIST (so a body may be replaced by
+    one that is equal only for the indices the loop really visits) -/
+theorem foldl_congr_mem {σ α : Type} (f g : σ → α → σ) (l : List α) (st : σ)
+    (h : ∀ st, ∀ i ∈ l, f st i = g st i) : List.foldl f st l = List.foldl g st l := by
+  induction l generalizing st with
+  | nil => rfl
+  | cons a l ih =>
+    rw [List.foldl_cons, List.foldl_cons, h st a (List.mem_cons_self ..)]
+    exact ih _ (fun st i hi => h st i (List.mem_cons_of_mem _ hi))
+
+theorem foldlM_congr_mem {σ α : Type} (f g : σ → α → R σ) (l : List α) (st : σ)
+    (h : ∀ st, ∀ i ∈ l, f st i = g st i) : List.foldlM f st l = List.foldlM g st l := by
+  induction l generalizing st with
+  | nil => rfl
+  | cons a l ih =>
+    rw [List.foldlM_cons, List.foldlM_cons, h st a (List.mem_cons_self ..)]
+    cases g st a with
+    | error e => rfl
+    | ok s => exact ih _ (fun st i hi => h st i (List.mem_cons_of_mem _ hi))
+
+theorem mem_range (N : Nat) (i : Int) (h : i ∈ Py.range (N : Int)) : ∃ n : Nat, n < N ∧ i = (n : Int) := by
+  unfold Py.range at h
+  simp only [Int.toNat_natCast, List.mem_map, List.mem_range] at h
+  obtain ⟨n, hn, rfl⟩ := h
+  exact ⟨n, hn, rfl⟩
+
+theorem mem_range_lit (N : Nat) (M i : Int) (hM : M = (N : Int)) (h : i ∈ Py.range M) :
+    ∃ n : Nat, n < N ∧ i = (n : Int) := by subst hM; exact mem_range N i h
+
+/-- the two ways of testing bit `11 - n` of `x` in a 12-step row loop: `x & (0x800 >> n)` and `(x >> (11 - n)) & 1` -/
+theorem bit_forms (x n : Nat) (hn : n < 12) :
+    (band (x : Int) (shr 2048 (n : Int)) ≠ 0) ↔ (band (shr (x : Int) (11 - (n : Int))) 1 ≠ 0) := by
+  have e : (11 - (n : Int)).toNat = 11 - n := by omega
+  simp only [shr_natCast, shr_lit, band_natCast, band_natCast_lit, Int.toNat_natCast, e, ne_eq, Int.natCast_eq_zero]
+  have hp : 2048 >>> n = 2 ^ (11 - n) := by
+    rw [Nat.shiftRight_eq_div_pow, show (2048 : Nat) = 2 ^ 11 from rfl, Nat.pow_div (by omega) (by decide)]
+  rw [hp, and_1, shr_div]
+  have := and_two_pow_ne_zero x (11 - n)
+  simp only [ne_eq] at this
+  rw [this]
+  omega
+
 /-- an `if` whose test is equivalent to another test -/
 theorem ite_iff {α : Type} {c d : Prop} [Decidable c] [Decidable d] (h : c ↔ d) (a b : α) :
     (if c then a else b) = (if d then a else b) := by
